@@ -1,0 +1,17 @@
+//go:build verif
+
+// Contracts for govc (contract-based deductive verification, see /verif/DESIGN.md).
+// Comment-only file: it contains no code and is compiled only under the verif tag.
+
+package raftio
+
+//@ ghost field ILogDB.gterm intmap
+
+// Assumed contract of the log store's range read (this is property C09 for the store
+// behind the interface; the in-repo stores are checked against parts of it separately).
+//@ iface (db ILogDB) IterateEntries
+//@ ensures result2 == nil ==> len(result0) >= len(ents) && (fresh(result0) || cap(result0) == 0 || ptr(result0) == ptr(ents))
+//@ ensures result2 == nil && len(ents) == 0 && len(result0) > 0 ==> result0[0].Index == low && low + len(result0) <= high
+//@ ensures result2 == nil && len(ents) == 0 ==> (forall i int :: 0 <= i && i < len(result0) ==> result0[i].Index == low + i && result0[i].Term == db.gterm[low + i])
+//@ ensures result2 == nil && len(ents) == 0 && len(result0) == 0 ==> result1 == size
+//@ ensures !errIs(result2, sentinel("internal/raft", "ErrCompacted"))
